@@ -295,6 +295,9 @@ func (w *Worker) decideN(conds []*Term, why string) int {
 		r, m := w.sol.CheckModel(st.pc, c, w.allVars())
 		if r == "unknown" {
 			unknown = true
+			if w.e.verbose > 0 {
+				fmt.Fprintf(os.Stderr, "UNKNOWN-BRANCH %s at %s: %s\n", why, st.choiceString(), c.str(0))
+			}
 			feas = append(feas, alt{i: i})
 		} else if r == "sat" {
 			feas = append(feas, alt{i: i, model: m})
@@ -395,38 +398,11 @@ func (st *State) domainCheck(c *Term) (refuted, feasible bool) {
 	if v == nil || v.S.K != KBV || v.S.W > 8 {
 		return false, false
 	}
-	var own []*Term
-	coupled := false
-	for _, p := range st.pc {
-		p = st.subst(p)
-		if sv := soleVar(p); sv == v {
-			own = append(own, p)
-		} else if sv == nil {
-			var vs []*Term
-			collectVars(p, map[int64]bool{}, &vs)
-			for _, x := range vs {
-				if x == v {
-					coupled = true
-				}
-			}
-		}
+	_, count, _ := filterDomain(st.domainOf(v), v, c)
+	if count == 0 {
+		return true, false
 	}
-	model := map[string]*big.Int{}
-	for val := 0; val < 1<<uint(v.S.W); val++ {
-		model[v.Name] = big.NewInt(int64(val))
-		cache := map[int64]*Term{}
-		ok := true
-		for _, p := range own {
-			if !evalTerm(p, model, cache).IsTrue() {
-				ok = false
-				break
-			}
-		}
-		if ok && evalTerm(c, model, cache).IsTrue() {
-			return false, !coupled
-		}
-	}
-	return true, false
+	return false, !st.coupled[v.Name]
 }
 
 // evalTrue evaluates c under the path's cached model.
